@@ -150,6 +150,8 @@ type TemplateProgram struct {
 	ResyncAfter  float64
 	Teardown     bool // finalize: drop one observed child per call instead of all at once
 	WithStatus   bool // desired children carry a status stanza (which metacontroller must ignore)
+	FinalizeHold bool // finalize: while spec.template.hold is true keep the children and answer finalized:false;
+	// otherwise keep the children and answer finalized:true at once (legal: leftovers go to the GC)
 }
 
 func childContentField(r *Resource) string {
@@ -349,6 +351,16 @@ func (tp *TemplateProgram) FinalizeResponse(req Object) Object {
 		}
 	}
 	resp := Object{tp.ChildrenKey: []interface{}{}}
+	if tp.FinalizeHold {
+		hold, _ := getPath(tp.parentOf(req), "spec", "template", "hold").(bool)
+		resp[tp.ChildrenKey] = toList(tp.Desired(req))
+		resp["finalized"] = !hold
+		if st := tp.status(req); st != nil {
+			st["finalizing"] = true
+			resp["status"] = st
+		}
+		return resp
+	}
 	if tp.Teardown && len(observed) > 1 {
 		// keep all but the last observed child of the first kind, unchanged
 		keep := map[string]bool{}
